@@ -9,10 +9,15 @@ import MetricsVerif.Driver.OnceCell
 import MetricsVerif.Driver.Recoverable
 import MetricsVerif.Driver.Layers
 import MetricsVerif.Driver.Tracing
+import MetricsVerif.Driver.Recency
+import MetricsVerif.Driver.Key
+import MetricsVerif.Driver.Cow
 
 open MetricsVerif.Driver
 
 structure DState where
+  cow : Cow.DSt := {}
+  recency : Option MetricsVerif.Recency.St := none
   prom : Option MetricsVerif.Prom.St := none
   layers : Option Layers.St := none
   tracing : Option Tracing.DSt := none
@@ -21,6 +26,7 @@ def step (st : DState) (line : String) : DState × String :=
   if line.startsWith "#" then ({}, line) else
   match line.splitOn " " with
   | "c08" :: args => (st, (C08.handle args).getD "bad-op")
+  | "key" :: args => (st, (Key.handle args).getD "bad-op")
   | "prom" :: args =>
     match Prom.handle st.prom args with
     | some (p, o) => ({ st with prom := p }, o)
@@ -35,6 +41,14 @@ def step (st : DState) (line : String) : DState × String :=
     | none => (st, "bad-op")
   | "recover" :: args => (st, (Recoverable.handle args).getD "bad-op")
   | "cell" :: args => (st, (OnceCell.handle args).getD "bad-op")
+  | "recency" :: args =>
+    match Recency.handle st.recency args with
+    | some (p, o) => ({ st with recency := p }, o)
+    | none => (st, "bad-op")
+  | "cow" :: args =>
+    match Cow.handle st.cow args with
+    | some (c, o) => ({ st with cow := c }, o)
+    | none => (st, "bad-op")
   | _ => (st, "bad-op")
 
 partial def loop (h : IO.FS.Stream) (out : IO.FS.Stream) (st : DState) : IO Unit := do
